@@ -356,6 +356,10 @@ func RunModel(ctx *vrun.Ctx, prop string, m ModelCfg, timeout time.Duration) err
 	}
 	var firstErr error
 	var emu sync.Mutex
+	var coll *traceCollector
+	if m.Crash {
+		coll = newCollector()
+	}
 	ctx.Parallel(len(paths), func(i int) {
 		p := paths[i]
 		if len(p) == 0 {
@@ -365,7 +369,7 @@ func RunModel(ctx *vrun.Ctx, prop string, m ModelCfg, timeout time.Duration) err
 		f, fseed := getF(sc)
 		var err error
 		if m.Crash {
-			err = crashWorkload(ctx, f, p, caches[cacheSel[i]], m.Nested)
+			err = crashWorkload(ctx, f, p, caches[cacheSel[i]], m.Nested, coll)
 		} else {
 			err = replayPath(ctx, prop, f, p, caches[cacheSel[i]], fseed, nil)
 			ctx.AddTraces(1)
@@ -378,6 +382,9 @@ func RunModel(ctx *vrun.Ctx, prop string, m ModelCfg, timeout time.Duration) err
 			emu.Unlock()
 		}
 	})
+	if coll != nil && firstErr == nil {
+		firstErr = coll.validate(ctx)
+	}
 	return firstErr
 }
 
